@@ -2,6 +2,8 @@
 
 from __future__ import annotations
 
+import shutil
+
 import random
 import time
 from fractions import Fraction
@@ -330,6 +332,8 @@ def run_c16(tier, seed):
     _spec_and_real(out, "C16", tier, seed, cfgs, variants, f"c16_{tier}")
     st = stager_partition(out, tier)
     out.coverage.update(st)
+    out.coverage.update(stager_model(out, tier))
+    out.coverage.update(stager_unbounded(tier))
     n = 0
     for kind, what, rp in hmc_adaptation_checks(tier):
         n += 1
@@ -421,6 +425,101 @@ def stager_partition(out, tier):
         # drop every request with the same (kind, settings) and continue with the rest
         pending = [i for i in pending if not (reqs[i]["kind"] == r["kind"] and reqs[i]["kw"] == r["kw"])]
     return {"stager_requests": len(reqs), "stager_states": states}
+
+
+def stager_model(out, tier):
+    """StagerModel.tla: the windowed schedule as a state machine, model checked for EVERY request up to a bound
+    (partition, growth, termination of the window loop); every terminal state is then demanded from the real
+    WindowedWarmUpStager."""
+    from fractions import Fraction
+
+    import mici.stagers as S
+
+    settings = [(75, 25, 50, 2, 1), (3, 2, 2, 2, 1), (0, 10, 0, 2, 1), (5, 5, 5, 3, 2), (1, 1, 1, 3, 1), (2, 1, 0, 1, 1), (0, 3, 4, 5, 4)]
+    max_warm = 130
+    if tier == "thorough":
+        settings += [(f, w, e, mn, md) for f in (0, 1, 4, 30) for w in (1, 2, 7, 20) for e in (0, 3, 25) for (mn, md) in ((2, 1), (1, 1), (7, 4), (5, 2))]
+        settings = sorted(set(settings))
+        max_warm = 400
+    d = tlc.fresh_dir(f"c16_stagermodel_{tier}")
+    tlc.stage_specs(d, ["StagerModel.tla"])
+    (d / "MCStagerModel.tla").write_text(
+        "---- MODULE MCStagerModel ----\nEXTENDS StagerModel\nSettingsDef == {" + ", ".join(
+            "[f |-> %d, w |-> %d, e |-> %d, mn |-> %d, md |-> %d]" % s_ for s_ in settings) + "}\n====\n")
+    invs = ["TypeOK", "NeverOvershoots", "WindowsNonEmpty", "SumsExactly", "WindowsGrow", "RemainderFits", "SplitRespected",
+            "SingleWindowWhenSmall", "Export"]
+    cfg = ("SPECIFICATION Spec\nCONSTANTS\n  MaxWarm = %d\n  Settings <- SettingsDef\n" % max_warm
+           + "".join(f"INVARIANT {i}\n" for i in invs) + "PROPERTY Termination\n")
+    res = tlc.run_tlc(d, "MCStagerModel", cfg, workers=8, timeout=1500, cpus=8, deadlock=False)
+    if not res.ok:
+        raise MachineryError(f"StagerModel.tla violates its own properties: {res.violated}\n{res.stdout[-1500:]}")
+    recs = [r for r in res.printed if isinstance(r, dict) and "windows" in r]
+    if len(recs) != len(settings) * (max_warm + 1):
+        raise MachineryError(f"StagerModel export incomplete: {len(recs)} of {len(settings) * (max_warm + 1)} requests")
+    n_multi = 0
+    ads = {"t": [_A(True, 0), _A(False, 10)]}
+    for r in recs:
+        kw = dict(n_init_fast_stage_iter=r["f"], n_init_slow_window_iter=r["w"], n_final_fast_stage_iter=r["e"],
+                  slow_window_multiplier=float(Fraction(r["mn"], r["md"])))
+        rp = {"engine": "stager-model", "kw": kw, "nw": r["n"]}
+        try:
+            stages = S.WindowedWarmUpStager(**kw).stages(r["n"], 3, ads, [lambda s: {}])
+        except Exception as e:  # noqa: BLE001
+            out.violate(f"C16:stager:windowed:exception:{type(e).__name__}", f"windowed stager raised {e!r} for n_warm_up={r['n']}, settings {kw}", rp)
+            continue
+        real = [int(stg.n_iter) for label, stg in stages.items() if label != "Main non-adaptive"]
+        want = ([r["fast0"]] + list(r["windows"]) + [r["fast1"]]) if r["n"] > 0 else []
+        n_multi += len(r["windows"]) > 1
+        if real == want:
+            continue
+        wins = real[1:-1]
+        if sum(real) != r["n"]:
+            out.violate("C16:stager:windowed:WarmUpSumsExactly", f"windowed stager (settings {kw}): warm-up stages {real} do not sum to n_warm_up={r['n']} "
+                        f"(the documented schedule is {want})", rp)
+        elif any(a > b for a, b in zip(wins, wins[1:])) or any(w < 1 for w in wins):
+            out.violate("C16:stager:windowed:WindowsGrow", f"windowed stager (settings {kw}, n_warm_up={r['n']}): slow windows {wins} are not growing "
+                        f"(the documented schedule is {want})", rp)
+        else:
+            out.drift(f"windowed stager (settings {kw}, n_warm_up={r['n']}) schedules {real}, StagerModel.tla {want}")
+    if not n_multi:
+        raise MachineryError("StagerModel: no request with more than one slow window (vacuous)")
+    return {"stager_model_states": res.distinct, "stager_model_requests": len(recs), "stager_model_multiwindow": n_multi}
+
+
+STAGER_IND_VARS = ["f", "w", "e", "n", "pc", "fast0", "fast1", "budget", "window", "counter", "nwin", "lastwin"]
+
+
+def stager_unbounded(tier):
+    """StagerInd.tla (the actions of StagerModel.tla without the window history) with Apalache: an inductive
+    invariant gives the partition / progress properties for EVERY request and window setting (unbounded
+    integers), the multiplier being fixed per run."""
+    from concurrent.futures import ThreadPoolExecutor
+
+    from mbv import apalache
+
+    mults = [(2, 1)] if tier == "quick" else [(2, 1), (3, 2), (1, 1), (3, 1), (5, 4), (7, 4), (5, 2)]
+    d = tlc.fresh_dir(f"c16_stagerind_{tier}")
+    tlc.stage_specs(d, ["StagerInd.tla"])
+    decl = "VARIABLES\n" + ",\n".join(f"  \\* @type: {'Str' if v == 'pc' else 'Int'};\n  {v}" for v in STAGER_IND_VARS)
+
+    def one(m):
+        mn, md = m
+        name = f"MC_StagerInd_{mn}_{md}"
+        sub = d / name
+        sub.mkdir()
+        shutil.copy(d / "StagerInd.tla", sub / "StagerInd.tla")
+        (sub / f"{name}.tla").write_text(f"---- MODULE {name} ----\nEXTENDS Integers\nMN == {mn}\nMD == {md}\n{decl}\nINSTANCE StagerInd\n====\n")
+        return m, apalache.inductive(sub, f"{name}.tla", init="Init", ind_init="IndInit", ind_inv="IndInv",
+                                     safety=["Safe", "Progressing"], action_invs=["Variant"], timeout=900)
+
+    with ThreadPoolExecutor(max_workers=4) as ex:
+        results = list(ex.map(one, mults))
+    for (mn, md), r in results:
+        bad = [k for k, v in r.items() if not v]
+        if bad:
+            raise MachineryError(f"StagerInd.tla: inductive argument fails for multiplier {mn}/{md}: {bad}")
+    return {"stager_unbounded_multipliers": [f"{a}/{b}" for a, b in mults],
+            "stager_unbounded_obligations": sum(len(r) for _, r in results)}
 
 
 def hmc_adaptation_checks(tier):
